@@ -39,16 +39,23 @@ TRUSTED = ['np.digitize / scipy.sparse.coo_matrix(...).toarray() are modelled by
            'exactness: amplitudes are small integers / short dyadics, so every float sum is exact and compared with ==']
 ASSUMPTIONS = ['edges_weakly_increasing: the theorems assume the edge vector is non-decreasing; validated on every edge vector produced '
                'by define_hist_bins / define_hist_bins_from_data in the run (instance kinds assumption:edges-not-increasing, bins:not-increasing)',
-               'amplitudes are finite (NaN amplitudes are skipped by hilberthuang_1d but propagate in hilberthuang; outside the property)']
+               'amplitudes are finite (NaN amplitudes are skipped by hilberthuang_1d but propagate in hilberthuang; outside the property)',
+               'outside the quantifier, not judged literally: NaN frequencies and vector inputs when a call raises (tagged), mismatched shapes / '
+               'zero bins / zero samples (stream hht_malformed: any error counts as rejected, literal=False), how bin sets are constructed '
+               '(stream bins, literal=False), side effects on the caller\'s arrays (input-modified:*, literal=False; their effect on later spectra is '
+               'judged literally), assumption:edges-not-increasing (literal=False); refused inputs are compared as "both refuse", never by class']
 RULE = ('exhaustive: every assignment of the edge-hitting alphabet {below, negative, each edge exactly, each bin interior, above, NaN} '
         'to k = T*M samples (k <= 3 quick, <= 4 thorough; amplitudes 1,2,4,8 so every subset sum is distinct) x linear and log edge sets '
         'with 1..3 (quick) / 1..4 (thorough) bins from the real define_hist_bins x {energy, amplitude} x {dense, sparse, 1-D}; '
         'random: T <= 60, M <= 6, 1..12 bins, linear/log/from-data edges, frequencies drawn from the alphabet, the floats adjacent to the '
         'outer edges and uniform values, integer or dyadic amplitudes of either sign, vector inputs; malformed: mismatched shapes, '
-        'non-monotone / empty / single edge vectors. Every input is evaluated as ONE SEQUENCE OF CALLS ON THE SAME ARRAY OBJECTS: '
-        'dense, sparse and 1-D in one of the 6 possible orders (drawn per case), then dense and sparse again; each result is compared '
-        'with the model and with the brute-force histogram of a pristine copy, and the arrays handed in are compared with the pristine copy '
-        'after every call. Non-trivial: the input has at least one in-range and one out-of-range-or-edge sample; distinct by content hash.')
+        'non-monotone / empty / single edge vectors; hht_dtypes: frequency arrays stored as float32 / int64 / int32 (values exactly '
+        'representable; the float32 roundings of every edge and their neighbours, integers around every edge; float64 edges with half-integer '
+        'or non-dyadic steps). Every input is evaluated as ONE SEQUENCE OF CALLS ON THE SAME ARRAY OBJECTS: '
+        'dense, sparse and 1-D in one of the 6 possible orders (drawn per case), then a dense call in the OTHER mode, then dense and sparse '
+        'again; each result is compared with the model and with the brute-force histogram of a pristine copy, every returned object is kept '
+        'and read once more after the whole sequence (a spectrum the caller holds must not change when another one is computed), and the '
+        'arrays handed in are compared with the pristine copy after every call (mechanism level). Non-trivial: the input has at least one in-range and one out-of-range-or-edge sample; distinct by content hash.')
 
 
 def _edge_sets(tier):
